@@ -129,15 +129,17 @@ PROPS = {
         "explanation": "union_without_unsafe string surgery cannot panic under the call-site precondition (bounded); discriminant width selection fits and is minimal, min/max/counter step cannot overflow (proved)",
     },
     "C20": {
-        "family": _c20, "verus": False, "engine": "kani",
-        "technique": "Kani/CBMC full-domain harnesses on the real union derives (byte views, pointer checks); loops only over the fixed object size with unwinding assertions",
-        "bounds": {"quick": "9 padding-free unions (sizes 1-16, 1-3 fields, one generic at T=u32) x 4 trait sets {PartialEq, Hash, Clone+Copy, all}; Default on unions: 1-3 fields x marker x with/without expression",
-                   "thorough": "5 trait sets"},
-        "trusted": ["CBMC memory model for raw byte views"],
-        "assumptions": ["partial: Debug on unions (core::fmt) and 'generated only behind unsafe' (a rejection, cf. C13) are NOT decided",
-                        "unions with padding are outside the family (their padding bytes are uninitialised)",
+        "family": _c20, "engine": "kani+verus",
+        "technique": "Kani/CBMC full-domain harnesses on the real union derives of ==, Hash, Clone, Default (byte views, pointer checks; loops only over the fixed object size with unwinding assertions); Verus on the verbatim union Debug impl with two constructs replaced by stubs",
+        "bounds": {"quick": "15 unions (sizes 0-16, 1-3 fields, alignment tails, repr(align), generics at T=u32 / (u8, u16), Adv-typed fields) x 5 trait sets {PartialEq, Hash, Clone+Copy, all, Clone with std Copy}; Debug on unions: the same 15 unions x 6 spellings of {default name, custom name, no name} (a third of the grid, every union with size != alignment in both forms); Default on unions: 1-3 fields x marker x with/without expression",
+                   "thorough": "6 trait sets; the whole Debug grid"},
+        "trusted": ["CBMC memory model for raw byte views",
+                    "Debug on unions: `unsafe { slice::from_raw_parts(self as *const Self as *const u8, n) }` is replaced by the stub bytes_view(self, n) (assumed: it denotes the n bytes at self) and the final `Debug::fmt(<slice>, f)` by the stub slice_debug_fmt (assumed: the slice's own Debug); vstd's size_of / align_of specs for core::mem::size_of / align_of"],
+        "assumptions": ["partial: 'generated only behind unsafe' (a rejection, cf. C13) is NOT decided",
+                        "Debug on unions has no Kani side (core::fmt does not terminate under CBMC): a failed Verus obligation becomes a violation only when the native replay ({:?} and {:#?} against core::fmt's own builders over the value's bytes) shows a different output, otherwise it is undecided",
+                        "unions with padding between fields are outside the family (their padding bytes are uninitialised); alignment tails are inside",
                         "harness loops (memcmp / byte copy) run over the fixed object size with unwinding assertions on"],
-        "explanation": "union ==/hash/clone are byte-exact over size_of::<Self>() bytes, for all byte patterns; default() initialises the designated field",
+        "explanation": "union ==/hash/clone are byte-exact over size_of::<Self>() bytes, for all byte patterns; default() initialises the designated field; Debug prints the (custom) type name, or nothing, and exactly the size_of::<Self>() bytes as one slice",
     },
     "C06": {
         "family": _c06, "kani": False, "engine": "verus",
